@@ -9,3 +9,8 @@ claim("C19", "proof", "call-path disjointness + context-sensitive value-demand r
       "The property is a statement about code paths and is decided as one: the file reads reachable from open are disjoint from node/item/value loading; every value-read site is guarded by a value-demand parameter and is unreachable from every key-only entry in every (function x flag-state) context; the remaining item/node reads have constant, guard-pinned or exactly-key-sized buffers. All call paths are covered by a sound over-approximation, hence proof level.",
       "Trusted: go/types+go/ssa; neutral callbacks (ItemAlloc returns a key of the requested length; values are read only through ItemValRead); closed-world premises checked by C09's A-closed.",
       "DESIGN.md §4 C19")
+
+claim("C07", "other", "path-sensitive error-flow analysis over SSA (every fallible call site, sink and error-returning callback)",
+      "Decides the 'reported, never swallowed' clause for every one of the ~116 fallible call sites: on each path where the error may be non-nil it must reach the caller before any publish / Store.size / file-write effect and without looping; plus mark hygiene of failed mutations (E3). This is a structural necessary condition, checked exhaustively over paths; it does not decide that later operations behave as if the failed call had never been made, nor hangs. Two sites (Exist, EvictSomeItems) genuinely drop an error because their signatures have no error result: listed as known findings.",
+      "Trusted: go/ssa; io.ReaderAt/WriterAt contract (short transfer => non-nil error); cached nodes are never evicted (justifies the cached re-read idiom).",
+      "DESIGN.md §4 C07")
